@@ -101,6 +101,9 @@ def run_shard(shard, ctx, tier):
             for rest in itertools.product(range(n), repeat=L - 1):
                 for rot in (0, 1):
                     guarded_check(mod, {'adaptive': [shard['first']] + list(rest), 'rot': rot}, ctx)
+                    if L <= 2:
+                        for cfg in (1, 2, 3):        # fixed factor / fixed factor + pixel budget exceeded / adaptive + pixel budget exceeded
+                            guarded_check(mod, {'adaptive': [shard['first']] + list(rest), 'rot': rot, 'cfg': cfg}, ctx)
     else:
         for ds in (1, 4):
             for n in (1, 2):
@@ -277,6 +280,12 @@ def check_adaptive(case, ctx):
     rot = case['rot']
     eng = copy.copy(engine())
     eng.parsenet = adaptive_parsenet()
+    cfg = case.get('cfg', 0)
+    if cfg in (1, 2):
+        eng.parsenet.adaptive_downsample = False
+    if cfg in (2, 3):
+        eng.parsenet.max_megapixels = 0.1          # the 4.3 MP page exceeds the budget: the factor actually used is sqrt(4.32 / 0.1) = 6.6
+        ctx.tag('page-exceeds-the-pixel-budget')
     res = None
     for size in hist:
         truth = page_lines(size)
@@ -288,10 +297,11 @@ def check_adaptive(case, ctx):
         ctx.reseed()
         res = eng.detect(img, rot=rot)
     ctx.executed(len(hist))
-    ctx.state(('adaptive', tuple(hist), rot, round(float(eng.parsenet.last_downsample), 3)))
+    ctx.state(('adaptive', tuple(hist), rot, cfg, round(float(eng.parsenet.last_downsample), 3)))
     p_list, b_list, h_list, t_list = res
     truth = page_lines(hist[-1])
-    desc = f'pages with print sizes {hist} (ascender px) analysed in turn, rotation {rot}; last page lines {truth}'
+    desc = (f'pages with print sizes {hist} (ascender px) analysed in turn, rotation {rot}, adaptive={eng.parsenet.adaptive_downsample}, '
+            f'max_mp={eng.parsenet.max_megapixels}; last page lines {truth}')
     K = f'{ID}/adaptive-downsampling'
     if len(b_list) != len(truth):
         ctx.violation('one-line-per-ridge', f'{K}/line-count', f'{desc}: {len(b_list)} lines for {len(truth)} ridges')
@@ -413,5 +423,5 @@ def describe(tier):
         'assumptions': ['end points within 3 map px, rows within (1 + thickness/2) map px (+ slope x 3), heights exact for constant maps',
                         'the rotated pass is compared with the exact inverse rot90 of the layout decoded from the rotated image, tolerance 1 px'],
         'min_nontrivial': 100, 'required_tags': ['several-ridges', 'with-end-point-responses', 'sloped-ridges', 'rotated-non-square-pages',
-                          'two-lines-starting-on-the-same-row', 'print-size-changes-between-pages', 'adaptive-factor-changed'],
+                          'two-lines-starting-on-the-same-row', 'print-size-changes-between-pages', 'adaptive-factor-changed', 'page-exceeds-the-pixel-budget'],
     }
